@@ -31,6 +31,8 @@ func endsWithModifier(n node) bool {
 	switch n := n.(type) {
 	case *capture:
 		return endsWithModifier(n.node)
+	case *negation: // Printed as "~" followed by its operand.
+		return !startsWithNegation(n.node) && endsWithModifier(n.node)
 	case *group:
 		if n.mode != groupMatchOnce {
 			return true
